@@ -107,6 +107,14 @@ CHECKS = {
             '(key-level STOP) is re-observed, classified by signature and reported as KNOWN-FINDING.',
             'One key spec per dict level; None vs empty container is not distinguished when no item reaches the top-level leaf.',
             '3/C16'),
+    'C17': ('model_checking',
+            'bounded exhaustive enumeration of Iter stage sequences x sources (finite, infinite with pull counting) against the itertools/boltons composition; explicit-state search over builder histories',
+            'Every stage sequence of length <= 3 (thorough: 4) over 17 stage instances of the ten kinds x {empty, 0..5, infinite} counting sources x 5 base sub-specs (T, SKIP-, STOP-producing, '
+            'two sentinels): the first five outputs equal the reference composition and the items pulled after k outputs never exceed what the reference pulls after k+1 (hard cap on the '
+            'infinite source); first(key, default) and all() on the same pipelines; breadth-first search over all builder histories of depth <= 3 in which every event extends ANY spec built '
+            'so far (Iter and Invoke): in every state repr and behaviour of every earlier spec are unchanged and the new spec equals the chain built from scratch.',
+            'Reference stages are the functions the documentation names; .map() does not honour SKIP/STOP.',
+            '3/C17'),
 }
 
 NOT_YET = {}
